@@ -95,9 +95,11 @@ type Op struct {
 	Reader string `json:"reader,omitempty"`
 	// DelayMs (sub, slow reader): pause between two reads.
 	DelayMs int `json:"delay_ms,omitempty"`
-	// N: emit => number of events; take => items; sleep => milliseconds;
-	// stop (concurrent mode, batch with emissions) => call Stop at the moment
-	// the N-th event of the batch starts to be sent (0 = at StartUs).
+	// AtEvent (sub, cancel, stop; concurrent mode, batch with emissions):
+	// when > 0 the call is made at the moment the AtEvent-th event of the
+	// batch (modulo their number) starts to be sent, instead of at StartUs.
+	AtEvent int `json:"at_event,omitempty"`
+	// N: emit => number of events; take => items; sleep => milliseconds.
 	N int `json:"n,omitempty"`
 	// DiscEvery (emit): every DiscEvery-th event of the burst disconnects
 	// the tip instead of connecting a block (0 = never).
@@ -107,7 +109,7 @@ type Op struct {
 func (o Op) String() string {
 	switch o.Kind {
 	case kSub:
-		return fmt.Sprintf("sub(back=%d,%s,delay=%dms)", o.Back, o.Reader, o.DelayMs)
+		return fmt.Sprintf("sub(back=%d,%s,delay=%dms,atEvent=%d)", o.Back, o.Reader, o.DelayMs, o.AtEvent)
 	case kEmit:
 		return fmt.Sprintf("emit(n=%d,discEvery=%d)", o.N, o.DiscEvery)
 	case kSleep:
@@ -115,9 +117,9 @@ func (o Op) String() string {
 	case kTake:
 		return fmt.Sprintf("take(sub=%d,n=%d)", o.Sub, o.N)
 	case kStop:
-		return fmt.Sprintf("stop(atEvent=%d)", o.N)
+		return fmt.Sprintf("stop(atEvent=%d)", o.AtEvent)
 	}
-	return fmt.Sprintf("%s(sub=%d)", o.Kind, o.Sub)
+	return fmt.Sprintf("%s(sub=%d,atEvent=%d)", o.Kind, o.Sub, o.AtEvent)
 }
 
 // Case is one generated scenario.
@@ -152,6 +154,9 @@ func genOp(t *rapid.T) Op {
 	op := Op{Kind: kind}
 	op.Join = rapid.Bool().Draw(t, "join")
 	op.StartUs = rapid.IntRange(0, 2).Draw(t, "start_us")
+	if kind == kSub || kind == kCancel {
+		op.AtEvent = rapid.OneOf(rapid.Just(0), rapid.IntRange(1, 40)).Draw(t, "at_event")
+	}
 	switch kind {
 	case kSub:
 		genSub(t, &op)
@@ -192,13 +197,19 @@ func genCase(t *rapid.T) Case {
 		if at < 0 {
 			at = 0
 		}
-		st := []Op{{Kind: kStop, Join: rapid.Bool().Draw(t, "stop_join"), StartUs: rapid.IntRange(0, 2).Draw(t, "stop_start_us"),
-			N: rapid.IntRange(0, 40).Draw(t, "stop_at_event")}}
-		// ... often together with a burst of events: concurrently in
-		// concurrent mode, afterwards (nothing may arrive) in step mode.
-		if n := rapid.OneOf(rapid.Just(0), rapid.IntRange(2, 60)).Draw(t, "stop_emit"); n > 0 {
+		atEv := rapid.IntRange(0, 40).Draw(t, "stop_at_event")
+		st := []Op{{Kind: kStop, Join: rapid.Bool().Draw(t, "stop_join"), StartUs: rapid.IntRange(0, 2).Draw(t, "stop_start_us"), AtEvent: atEv}}
+		// ... often together with a burst of events and new subscribers:
+		// concurrently in concurrent mode, afterwards (nothing may arrive,
+		// nobody may be accepted) in step mode.
+		if n := rapid.OneOf(rapid.Just(0), rapid.IntRange(2, 60), rapid.IntRange(2, 60)).Draw(t, "stop_emit"); n > 0 {
 			st = append(st, Op{Kind: kEmit, Join: true, N: n})
 		}
+		st = append(st, rapid.SliceOfN(rapid.Custom(func(t *rapid.T) Op {
+			op := Op{Kind: kSub, Join: true, AtEvent: atEv}
+			genSub(t, &op)
+			return op
+		}), 0, 3).Draw(t, "stop_subs")...)
 		c.Ops = append(c.Ops[:at:at], append(st, c.Ops[at:]...)...)
 	}
 	return c
@@ -368,7 +379,7 @@ type emitJob struct {
 
 // emitter sends the events of the given jobs, in order, on the unbuffered
 // source channel, like blockManager.onBlockConnected / onBlockDisconnected.
-func (h *harness) emitter(jobs []emitJob, abandon <-chan struct{}, done chan<- struct{}, trigAt int, trig chan struct{}) {
+func (h *harness) emitter(jobs []emitJob, abandon <-chan struct{}, done chan<- struct{}, trig map[int]chan struct{}) {
 	defer close(done)
 	t0 := time.Now()
 	count := 0
@@ -382,8 +393,10 @@ func (h *harness) emitter(jobs []emitJob, abandon <-chan struct{}, done chan<- s
 			h.events = append(h.events, ident(n))
 			h.sentStart++
 			h.mu.Unlock()
-			if count++; count == trigAt {
-				close(trig)
+			count++
+			if c, ok := trig[count]; ok {
+				close(c)
+				delete(trig, count)
 			}
 			select {
 			case h.ch <- n:
@@ -741,8 +754,19 @@ func (h *harness) runBatch(ops []Op) {
 			totalEmit += op.N
 		}
 	}
-	trigAt := 0
-	var trig chan struct{}
+	// trig: channels closed by the emitter when it starts to send the n-th
+	// event of this batch.
+	trig := map[int]chan struct{}{}
+	trigger := func(op Op) chan struct{} {
+		if op.AtEvent <= 0 || totalEmit == 0 || len(ops) == 1 {
+			return nil
+		}
+		at := 1 + (op.AtEvent-1)%totalEmit
+		if trig[at] == nil {
+			trig[at] = make(chan struct{})
+		}
+		return trig[at]
+	}
 	h.mu.Lock()
 	pend := map[*subscriber]int{}
 	for _, s := range regs {
@@ -751,9 +775,9 @@ func (h *harness) runBatch(ops []Op) {
 	tip := len(h.chain) - 1
 	h.mu.Unlock()
 
-	start := func(us int, f func()) {
+	startOn := func(us int, on chan struct{}, f func()) {
 		d := time.Duration(us) * time.Microsecond
-		if len(ops) == 1 {
+		if len(ops) == 1 || on != nil {
 			d = 0
 		}
 		if d > wait {
@@ -763,9 +787,13 @@ func (h *harness) runBatch(ops []Op) {
 			if d > 0 {
 				time.Sleep(d)
 			}
+			if on != nil {
+				<-on
+			}
 			f()
 		})
 	}
+	start := func(us int, f func()) { startOn(us, nil, f) }
 
 	for _, op := range ops {
 		desc = append(desc, op.String())
@@ -790,7 +818,7 @@ func (h *harness) runBatch(ops []Op) {
 			}
 			h.subs = append(h.subs, s)
 			newSubs = append(newSubs, s)
-			start(op.StartUs, func() {
+			startOn(op.StartUs, trigger(op), func() {
 				h.mu.Lock()
 				s.recStart = len(h.recs)
 				s.loAtCall = h.sentDone
@@ -821,7 +849,7 @@ func (h *harness) runBatch(ops []Op) {
 			}
 			s.cancelAsked = true
 			cancels = append(cancels, s)
-			start(op.StartUs, func() {
+			startOn(op.StartUs, trigger(op), func() {
 				s.sub.Cancel()
 				h.mu.Lock()
 				// If Stop had not started by now, the handler took the
@@ -873,16 +901,7 @@ func (h *harness) runBatch(ops []Op) {
 			}
 			stopDone = make(chan struct{})
 			sd := stopDone
-			var waitFor chan struct{}
-			if op.N > 0 && totalEmit > 0 && len(ops) > 1 {
-				trigAt = 1 + (op.N-1)%totalEmit
-				trig = make(chan struct{})
-				waitFor = trig
-			}
-			start(op.StartUs, func() {
-				if waitFor != nil {
-					<-waitFor
-				}
+			startOn(op.StartUs, trigger(op), func() {
 				h.mu.Lock()
 				h.stopStarted = true
 				h.mu.Unlock()
@@ -911,7 +930,7 @@ func (h *harness) runBatch(ops []Op) {
 			}
 		}
 		emitDone, emitAbandon = make(chan struct{}), make(chan struct{})
-		h.spawn(func() { h.emitter(jobs, emitAbandon, emitDone, trigAt, trig) })
+		h.spawn(func() { h.emitter(jobs, emitAbandon, emitDone, trig) })
 	}
 	h.v.Logf("%s", strings.Join(desc, " || "))
 	if wait > 0 {
@@ -929,10 +948,12 @@ func (h *harness) runBatch(ops []Op) {
 		}
 		close(emitAbandon)
 		synctest.Wait()
-		if trig != nil && !isClosed(trig) {
-			close(trig) // release the Stop that waited for an event that was never sent
-			synctest.Wait()
+		// release the calls that waited for an event that was never sent
+		// (the emitter has gone, nobody else touches the map)
+		for _, c := range trig {
+			close(c)
 		}
+		synctest.Wait()
 	}
 	if stopDone != nil && !isClosed(stopDone) {
 		h.fail("C11/stop-blocked", "Stop did not return although the bubble is quiescent")
@@ -1222,7 +1243,7 @@ func (h *harness) finish() {
 			return
 		}
 		done, ab := make(chan struct{}), make(chan struct{})
-		h.spawn(func() { h.emitter([]emitJob{{n: 1}}, ab, done, 0, nil) })
+		h.spawn(func() { h.emitter([]emitJob{{n: 1}}, ab, done, nil) })
 		synctest.Wait()
 		if !isClosed(done) {
 			h.fail("C11/emit-blocked", "the running manager does not take the probe event from the source")
